@@ -128,11 +128,23 @@ fn restarts(out: &mut Out, rng: &mut Rng, k: u64, nrestarts: usize, ninst: usize
                 out.violation("C10 announced-public-key differs", &format!("Server::get_public_key() = {} but RFC 8032 public key of the seed is {}", d.srv.pubkey_hex, hex(&pk)), desc.clone());
             }
             let srv = d.srv_value.clone();
-            let sends = vec![(0, valid_classic(rng).data), (1, valid_ietf(rng, Some(&srv)).data), (2, valid_classic(rng).data), (3, valid_ietf(rng, None).data)];
+            // socket 1 always carries the reference-computed SRV: the server's own commitment value is
+            // observable through whether that request is answered
+            let with_srv = crate::refimpl::req::ietf_request(&[DRAFT13], Some(&srv), &rng.bytes(32), 1024);
+            let sends = vec![(0, valid_classic(rng).data), (1, with_srv), (2, valid_classic(rng).data), (3, valid_ietf(rng, None).data)];
             let round = d.round(sends, true);
             if round.panic.is_some() {
                 out.inconclusive("server panicked (C08's verdict)");
                 continue;
+            }
+            let answered = |sock: usize| round.replies.iter().any(|r| r.sock == sock && r.matched.is_some());
+            out.obs("srv_commitment_probes", 1);
+            if !answered(1) && answered(3) && !round.drops_moved {
+                out.violation(
+                    "C10 server-srv-value differs (request naming SHA-512(0xff||pk)[0..32] unanswered)",
+                    "an IETF request carrying SRV = first 32 bytes of SHA-512(0xff || public key) got no reply while the same request without SRV was answered: the server's commitment value is not that value",
+                    desc.clone(),
+                );
             }
             for rep in &round.replies {
                 let p = reply_proto(&rep.data);
@@ -203,6 +215,7 @@ pub fn run_c10(ctx: &Ctx, out: &mut Out) {
     out.floor("seeds_checked", 5_000);
     out.floor("api_certs_checked", 5_000);
     out.floor("server_instances", 100);
+    out.floor("srv_commitment_probes", 100);
     out.floor("certs_from_replies_classic", 100);
     out.floor("certs_from_replies_ietf", 100);
 }
